@@ -8,7 +8,8 @@ PROP = "C14"
 COQ_EXTRA = ["theories/Model/HttpClientCases.vo", "theories/Gen/ClientGen.vo"]
 PARTIAL = [
     "urllib (build_opener, Request, handlers), TLS and sockets are CPython runtime: not modelled; the fake server sits directly under the opener, so they run for real in the correspondence run only",
-    "http.cookiejar's domain/path/expiry/secure policy is abstracted to 'same host, last value of a name wins'; the harness uses host-only session cookies with Path=/",
+    "http.cookiejar's domain/path/expiry/secure policy is abstracted to 'same host, last value of a name wins' in the MODEL (its cases use host-only session cookies with Path=/); "
+    "Domain= / Path= / Secure / Max-Age / Expires cookies are probed on the implementation only, against an RFC 6265 user-agent oracle, and the jar's class and policy flags are a watched constant (cookie_policy_is_default)",
     "HTTP redirects (urllib re-issues a redirected POST as a GET) are outside the model and the fake server never redirects",
     "the optional `requests` branch of post_request (USE_REQUESTS) cannot be exercised here (requests is not installed): outside the claim; the translator fails closed if it becomes active",
     "'body is the serialized OFX request' is a statement about bytes: checked on the implementation (posted bytes == bytes returned by the dry run of the same call with uuid/clock frozen, and parsed back), not a theorem",
@@ -28,7 +29,8 @@ MANIFEST = {
 }
 
 HOSTS = ["cfg0.example", "cfg1.example", "svc0.example", "svc1.example", "svc2.example"]
-PATHS = ["/ofx", "/bank", "/cc"]
+# paths as institutions really advertise them: mixed case, a file extension, a query with '&', '=' and a %-escape
+PATHS = ["/ofx", "/bank", "/cc", "/OFXServer/Statements.DLL", "/cgi-bin/Ofx.exe?Inst=ABC%2F1&Lang=EN"]
 UAS = ["InetClntApp/3.0", "VerifAgent/1.0"]
 # (org, fid) as indices into client_harness.ORGS / FIDS: plain tokens, then identities as the bundled fi.cfg has them (dotted ORG shared by
 # two FIDs, dashes, blanks, '&', non-ASCII, leading dot, decimal point).  Pairs that render to the SAME '<org>-<fid>' text are C15's subject
@@ -173,23 +175,25 @@ class Server:
     def _new_profile(self, date, home):
         rng = self.rng
         shape = rng.choice(["same", "other", "other", "two", "none", "multi"])
-        svc = (rng.choice([2, 3, 4]), rng.choice([0, 1, 2]))
+        svc = (rng.choice([2, 3, 4]), rng.randrange(len(PATHS)))
         if shape == "same":
             sets = [("bank", home, rng.random() < 0.3)]
         elif shape == "other":
             sets = [(k, svc, rng.random() < 0.3) for k in rng.sample(["bank", "cc", "inv"], rng.choice([1, 2, 3]))]
         elif shape == "two":
-            sets = [("bank", svc, False), ("cc", (svc[0], (svc[1] + 1) % 3), False)]
+            sets = [("bank", svc, False), ("cc", (svc[0], (svc[1] + 1) % len(PATHS)), False)]
         elif shape == "none":
             sets = [("other", svc, False)]      # MSGSETLIST must not be empty: a profile advertising no statement service
         else:   # two BANKMSGSETs: the last decides StmtRq, the first (if closingavail) StmtEndRq
-            second = svc if rng.random() < 0.5 else (svc[0], (svc[1] + 1) % 3)
+            second = svc if rng.random() < 0.5 else (svc[0], (svc[1] + 1) % len(PATHS))
             sets = [("bank", svc, rng.random() < 0.5), ("bank", second, False), ("other", home, False)]
         return self.profile(date, sets)
 
     def profile(self, date, sets):
         pid = len(self.profiles) + 1
-        data = H.make_profile(date, [(k, url_str(u), cl) for k, u, cl in sets], tag="p%d" % pid)
+        # the URL element as servers write it: now and then with blanks around it (the parser strips them: the URL advertised is the text)
+        blank = lambda t: ("  " + t + " ") if self.rng.random() < 0.15 else t
+        data = H.make_profile(date, [(k, blank(url_str(u)), cl) for k, u, cl in sets], tag="p%d" % pid)
         self.profiles[data] = pid
         order = {"other": 1, "bank": 2, "cc": 3, "inv": 4}
         p = {"id": pid, "date": date, "sets": sorted(sets, key=lambda s: order[s[0]]), "bytes": data}
@@ -282,8 +286,135 @@ def dir_snapshot(d):
     return out
 
 
+
+# ------------------------------------------------------------------ cookie-policy probe (implementation only; the model's jar is "same host")
+CK_P = "profile.ofx.bank0.example"        # the configured (profile) host
+CK_S = "ofx.bank0.example"                # the advertised statement host, one label above it
+CK_DOMAINS = [None, ".bank0.example", "bank0.example", ".ofx.bank0.example", "ofx.bank0.example", CK_P, "." + CK_P, ".other.example", "other.example"]
+CK_PATHS = [None, "/", "/ofx", "/Stmt"]
+CK_EXP = [None, "max-age", "expires"]
+
+
+def gen_cookie_cases(rng, n, everything=False):
+    """Set-Cookie lines with Domain= (one / two labels above the answering host, the host itself, with and without leading dot, a foreign
+    domain), Path= variants, Secure, Max-Age / Expires in the future, deletion by Max-Age=0, several per response; the statement URL on
+    https or http (a Secure cookie must stay off http)."""
+    grid = [(d, p_, sec, e) for d in CK_DOMAINS for p_ in CK_PATHS for sec in (False, True) for e in CK_EXP]
+    picks = grid if everything else ([(".bank0.example", None, False, None), ("bank0.example", "/", True, "max-age"), (None, None, False, None),
+                                      (".other.example", "/", False, None), (".ofx.bank0.example", "/Stmt", False, "expires")] + rng.sample(grid, n))
+    out = []
+    for k, g in enumerate(picks):
+        mk = lambda i, a: {"name": "c%d" % i, "value": "v%d-%d" % (k, i), "domain": a[0], "path": a[1], "secure": a[2], "exp": a[3]}
+        r0 = [mk(0, g)] + [mk(1 + j, rng.choice(grid)) for j in range(rng.choice([0, 1, 2]))]
+        r1 = [mk(5 + j, rng.choice(grid)) for j in range(rng.choice([0, 1, 2]))]
+        # overwrite / delete the first cookie from the OTHER host's answer - only where that host belongs to the cookie's domain
+        # (http.cookiejar clears an expired cookie before it asks its policy whether the sender may set it: a stdlib quirk, not probed)
+        if rng.random() < 0.3 and r0[0]["domain"] in (".bank0.example", "bank0.example", ".ofx.bank0.example", "ofx.bank0.example"):
+            r1.append(dict(r0[0], value="w%d" % k, exp=rng.choice([None, "delete"])))
+        out.append({"kind": "cookies", "shape": "cookie-policy", "r0": r0, "r1": r1, "svc_http": rng.random() < 0.25, "server_seed": 0})
+    return out
+
+
+def set_cookie_line(c):
+    s_ = "%s=%s" % (c["name"], c["value"])
+    if c["domain"]: s_ += "; Domain=%s" % c["domain"]
+    if c["path"]: s_ += "; Path=%s" % c["path"]
+    if c["secure"]: s_ += "; Secure"
+    if c["exp"] == "max-age": s_ += "; Max-Age=3600"
+    elif c["exp"] == "expires": s_ += "; Expires=Fri, 31 Dec 2060 23:59:59 GMT"
+    elif c["exp"] == "delete": s_ += "; Max-Age=0"
+    return s_
+
+
+class Rfc6265Jar:
+    """independent statement of what a user agent stores and sends (RFC 6265 5.3 / 5.4 as http.cookiejar's DEFAULT policy implements it - the
+    jar's class and policy flags are pinned by Gen/ClientGen.v cookie_policy_is_default): domain-match, path-match with the default path, Secure only on https, Max-Age=0 deletes, (name, domain, path) is the key."""
+    def __init__(self):
+        self.store = {}
+
+    @staticmethod
+    def dmatch(host, d):
+        return host == d or host.endswith("." + d)
+
+    def set(self, host, rpath, c):
+        if c["domain"]:
+            d = c["domain"].lstrip(".")
+            if not self.dmatch(host, d):
+                return                        # a host cannot set a cookie for a domain it does not belong to
+            key_d, host_only = d, False
+        else:
+            key_d, host_only = host, True
+        path = c["path"] or (rpath[:rpath.rfind("/")] or "/")
+        key = (c["name"], key_d, host_only, path)
+        if c["exp"] == "delete":
+            self.store.pop(key, None)
+        else:
+            self.store[key] = (c["value"], c["secure"])
+
+    def send(self, scheme, host, rpath):
+        out = []
+        for (name, d, host_only, path), (value, secure) in self.store.items():
+            # a cookie without Domain= also goes to hosts BELOW the one that set it: http.cookiejar's default (Netscape, DomainLiberal) policy,
+            # as observed on the unchanged tree; RFC 6265's host-only flag would be stricter, DomainStrict is what seeded/C14-9 switches on
+            if self.dmatch(host, d) and (rpath == path or rpath.startswith(path.rstrip("/") + "/") or path == "/") \
+                    and (not secure or scheme == "https"):
+                out.append((name, value))
+        return sorted(out)
+
+
+def run_cookie_case(case, workdir):
+    L = H.lib()
+    shutil.rmtree(workdir, ignore_errors=True)
+    H.set_datadir(workdir)
+    svc = "%s://%s/Stmt/Download.dll" % ("http" if case["svc_http"] else "https", CK_S)
+    prof = H.make_profile(10, [("bank", svc, False)], tag="ck")
+    a = L.OFXClient("https://%s/ofx" % CK_P, userid="user-1-id", org="ORG1", fid="FID1", bankid="1")
+    b = L.OFXClient("https://%s/ofx" % CK_P, userid="user-2-id", org="ORG2", fid="FID2", bankid="1")
+    fails, want_jar, log = [], Rfc6265Jar(), []
+    state = {"n": 0, "who": "a"}
+
+    def responder(rq):
+        import urllib.parse
+        u = urllib.parse.urlsplit(rq.url)
+        sent = rq.cookies()
+        if state["who"] == "a":
+            want = want_jar.send(u.scheme, u.hostname, u.path)
+            if sent != want:
+                missing = [c for c in want if c not in sent]; extra = [c for c in sent if c not in want]
+                key = "cookie:not-replayed" if missing else "cookie:never-set-for-this-client"
+                fails.append((key, "request %d of the client to %s carries Cookie %r; the answers it received so far (%s) make a user agent send %r%s"
+                              % (state["n"], rq.url, sent, "; ".join(log) or "none", want,
+                                 " - a cookie the server set for a domain the host belongs to was dropped" if missing else ""), {"request": state["n"]}))
+        elif sent:
+            fails.append(("cookie:from-another-client", "a request of a second client instance to %s carries %r" % (rq.url, sent), {}))
+        is_prof = b"<PROFRQ>" in (rq.body or b"")
+        lines = []
+        if state["who"] == "a":
+            cs = case["r0"] if (is_prof and state["n"] == 0) else (case["r1"] if (not is_prof and state["n"] == 1) else [])
+            for c in cs:
+                want_jar.set(u.hostname, u.path, c)
+                lines.append(set_cookie_line(c))
+            if lines:
+                log.append("%s answered Set-Cookie: %s" % (u.hostname, " | ".join(lines)))
+        state["n"] += 1
+        return H.Resp(body=prof if is_prof else b"ANSWER", set_cookie=lines)
+
+    stmt = lambda cl, **kw: cl.request_statements("pw-1-secret", L.Client.StmtRq(acctid="1", accttype="CHECKING"), **kw)
+    with H.FakeNet(responder):
+        try:
+            stmt(a); stmt(a)
+            a.request_tax1099("pw-1-secret", "2019", skip_profile=True)
+            state["who"] = "b"
+            stmt(b, skip_profile=True); stmt(b)
+        except Exception as e:
+            fails.append(("cookie-probe:request-failed", "a request of the cookie probe raised %r" % (e,), {}))
+    return {"cookies": {"requests": state["n"], "kept": len(want_jar.store)}}, fails
+
+
 def run_case(case, workdir):
     """run the implementation on one case; returns (observation for the model comparison, property failures)."""
+    if case.get("kind") == "cookies":
+        return run_cookie_case(case, workdir)
     L = H.lib()
     for c in case["cfgs"]:
         c["url"] = tuple(c["url"])
@@ -451,12 +582,16 @@ def _run(rep, tier, rng):
     n = 6000 if thorough else 700
     for _ in range(n):
         cases.append(gen_case(rng))
+    cases += gen_cookie_cases(rng, 0, everything=True) if thorough else gen_cookie_cases(rng, 60)
     items, kept = [], []
     results = H.pmap(run_case, cases, "c14")
     for i, case in enumerate(cases):
         obs, fails = results[i]
         for key, what, extra in fails:
             rep.failures.append(C.Failure(key, what, {"case": case, "at": extra}))
+        if "cookies" in obs:
+            rep.count(json.dumps(case, sort_keys=True), nontrivial=obs["cookies"]["kept"] > 0, kind="cookie-policy/%dkept" % min(obs["cookies"]["kept"], 3))
+            continue
         items.append(c_case(case, obs)); kept.append((case, obs))
         nreq = sum(len(e["requests"]) for e in obs["events"])
         rep.count(json.dumps(case, sort_keys=True), nontrivial=nreq > 0, kind="%s/%dcl/%dreq" % (case.get("shape", "corpus"), len(case["cfgs"]), min(nreq, 9) // 3 * 3))
@@ -466,7 +601,9 @@ def _run(rep, tier, rng):
                 "x sequences of 1-8 calls over {profile, statements, accounts, tax} x {dryrun, skip_profile, normal} against a fake institution under urllib's opener that answers "
                 "profile requests with a newer / the same / an older profile (advertising the configured URL, another URL, two different URLs, none, or two BANKMSGSETs), "
                 "'up to date', an error status, garbage, a transport error or HTTP 500, and sets 0-2 cookies per response. Every request observed is judged against the "
-                "property text by an independent oracle; the whole trace, the jars and the cache directory are compared with the Gallina model (vm_compute). "
+                "property text by an independent oracle; cookie-policy probes (implementation only: Set-Cookie with Domain= one/two labels above the answering host or "
+                "foreign, with/without leading dot, Path= variants, Secure on https/http, Max-Age/Expires, deletion, several per response, a second client) judged by an "
+                "RFC 6265 user-agent oracle; the whole trace, the jars and the cache directory are compared with the Gallina model (vm_compute). "
                 "non-trivial = at least one request reached the fake server; distinct by (configuration, calls, server seed)")
     bad = C.coq_bad_indices(PROP, "http", ["Model.HttpClient", "Model.HttpClientCases"], "hcase_ok", "hcase", items, shard=250 if thorough else 60)
     for i in bad[:50]:
